@@ -5,15 +5,14 @@ import Skc.Generated.Aliases
 
 Property theorems only (helpers live in `Skc/Proofs/Data.lean`). Model: `Skc/Model/Data.lean`
 (`DecisionMatrix.__getitem__`, `_Loc.__getitem__` for `loc` / `iloc`, `copy`, `to_dict`, `mkdm`,
-`Objective.from_alias`), as the code is after the commit
-`fix: column selection re-attaches objectives and weights by criterion label`.
+`Objective.from_alias`), as the code is after the commits
+`fix: column selection re-attaches objectives and weights by criterion label` and the repair of the
+`(rows, single column)` form of `loc` / `iloc`.
 
 Vocabulary (defined next to the model): `SubView d' d` — `d'` is well formed, lists only
 alternatives / criteria of `d`, and every criterion of `d'` has, looked up BY LABEL in `d`, its own
 objective, weight, dtype and, for every alternative of `d'`, its own cell.
-`Step.Admissible d s` — the selection names no label / position twice (a *subset*, in any order) and is
-not of the `(rows, single column)` form of `loc` / `iloc`; for that form the code does not satisfy the
-property: see `colSeries_loc`, `colSeries_iloc`, `colSeries_corner_violates` below. -/
+`Step.Admissible d s` — the selection names no label / position twice (a *subset*, in any order). -/
 namespace Skc.C01
 open Skc.Data
 
@@ -104,11 +103,12 @@ theorem getitem_subview {d d' : DM α} (hw : d.WF) (s : GSel) (hs : s.Distinct)
       · cases h
 
 /-- `dm.loc[rows]` / `dm.loc[rows, cols]` with label selectors `One | Many | Slice | Mask | All` on each
-axis (every form except `(rows, single column)`): sub-view, in the requested order on both axes -/
+axis — including `(rows, single column)`, which answers with the one-criterion matrix —: sub-view, in the
+requested order on both axes -/
 theorem loc_subview [Truncate α] {d d' : DM α} (hw : d.WF) (r : LSel) (c : Option LSel)
     (hs : (Step.loc r c).Admissible d) (h : loc d r c = .ok d') :
     SubView d' d ∧ d'.crits = (c.getD .all).requested d.crits ∧ d'.alts = r.requested d.alts := by
-  obtain ⟨hdr, hdc, hform⟩ := hs
+  obtain ⟨hdr, hdc⟩ := hs
   unfold loc locWith at h
   split at h
   · cases h
@@ -118,11 +118,7 @@ theorem loc_subview [Truncate α] {d d' : DM α} (hw : d.WF) (r : LSel) (c : Opt
     · rename_i rs hrs
       obtain ⟨hrr, hreqr, hndr⟩ := LSel.resolve_spec d.alts r rs hrs
       obtain ⟨hcr, hreqc, hndc⟩ := LSel.resolve_spec d.crits _ cs hcs
-      have hf : (!r.isOne && (c.getD .all).isOne) = false := by
-        cases c with
-        | none => simp [LSel.isOne]
-        | some c => simpa [Step.isColSeries] using hform
-      obtain ⟨hsv, ha, hc⟩ := finish_subview hw (hndr hdr) (hndc hdc) hrr hcr hf h
+      obtain ⟨hsv, ha, hc⟩ := finish_subview hw (hndr hdr) (hndc hdc) hrr hcr h
       exact ⟨hsv, by rw [hc, hreqc], by rw [ha, hreqr]⟩
 
 /-- `dm.iloc[rows]` / `dm.iloc[rows, cols]` with positional selectors (negative positions, slices with
@@ -130,7 +126,7 @@ steps, masks): sub-view, in the requested order on both axes -/
 theorem iloc_subview [Truncate α] {d d' : DM α} (hw : d.WF) (r : ISel) (c : Option ISel)
     (hs : (Step.iloc r c).Admissible d) (h : iloc d r c = .ok d') :
     SubView d' d ∧ d'.crits = (c.getD .all).requested d.crits ∧ d'.alts = r.requested d.alts := by
-  obtain ⟨hdr, hdc, hform⟩ := hs
+  obtain ⟨hdr, hdc⟩ := hs
   unfold iloc ilocWith at h
   split at h
   · cases h
@@ -140,11 +136,7 @@ theorem iloc_subview [Truncate α] {d d' : DM α} (hw : d.WF) (r : ISel) (c : Op
   · rename_i cs rs hcs hrs
     obtain ⟨hrr, hreqr, hndr⟩ := ISel.resolve_spec d.alts r rs hrs
     obtain ⟨hcr, hreqc, hndc⟩ := ISel.resolve_spec d.crits _ cs hcs
-    have hf : (!r.isOne && (c.getD .all).isOne) = false := by
-      cases c with
-      | none => simp [ISel.isOne]
-      | some c => simpa [Step.isColSeries] using hform
-    obtain ⟨hsv, ha, hc⟩ := finish_subview hw (hndr hdr) (hndc hdc) hrr hcr hf h
+    obtain ⟨hsv, ha, hc⟩ := finish_subview hw (hndr hdr) (hndc hdc) hrr hcr h
     exact ⟨hsv, by rw [hc, hreqc], by rw [ha, hreqr]⟩
 
 /-- `to_dict()` followed by `mkdm(**…)` rebuilds exactly the same matrix: all six parts, positionally -/
@@ -202,50 +194,6 @@ theorem chain_order [Truncate α] (ops : List Step) (s : Step) {d d1 d' : DM α}
     d'.crits = s.requestedCrits d1 ∧ d'.alts = s.requestedAlts d1 :=
   (step_subview (chain_subview ops hw hok h1).1 s hs h).2
 
-/-! ## the `(rows, single column)` form of `loc` / `iloc` — NOT covered by the property
-
-pandas answers `dm.loc[rows, 'C1']` with a *column* Series; `_Loc.__getitem__` handles every Series as
-if it were a row (`to_frame().T`). The two theorems say exactly what the code then does: it answers
-only if every selected alternative label is also a criterion label (vacuously: no row selected), and
-the answer has the criterion as its only alternative and the alternatives as criteria. -/
-
-theorem colSeries_loc [Truncate α] {d d' : DM α} (r : LSel) (c : String) (hr : r.isOne = false)
-    (h : loc d r (some (.one c)) = .ok d') :
-    d'.alts = [c] ∧ d'.crits = r.requested d.alts ∧ ∀ a ∈ r.requested d.alts, a ∈ d.crits := by
-  unfold loc locWith at h
-  split at h
-  · cases h
-  · rename_i cs hcs
-    split at h
-    · cases h
-    · rename_i rs hrs
-      obtain ⟨_, hreqr, _⟩ := LSel.resolve_spec d.alts r rs hrs
-      obtain ⟨_, hreqc, _⟩ := LSel.resolve_spec d.crits _ cs hcs
-      rw [hr] at h
-      have h : finish attach d false true rs cs = .ok d' := h
-      obtain ⟨ha, hc, hall⟩ := finish_colSeries h
-      rw [hreqr] at hc hall
-      exact ⟨by rw [ha, hreqc]; rfl, hc, hall⟩
-
-theorem colSeries_iloc [Truncate α] {d d' : DM α} (r : ISel) (i : Int) (hr : r.isOne = false)
-    (h : iloc d r (some (.one i)) = .ok d') :
-    d'.alts = (ISel.one i).requested d.crits ∧ d'.crits = r.requested d.alts ∧
-      ∀ a ∈ r.requested d.alts, a ∈ d.crits := by
-  unfold iloc ilocWith at h
-  split at h
-  · cases h
-  · cases h
-  · cases h
-  · cases h
-  · rename_i cs rs hcs hrs
-    obtain ⟨_, hreqr, _⟩ := ISel.resolve_spec d.alts r rs hrs
-    obtain ⟨_, hreqc, _⟩ := ISel.resolve_spec d.crits _ cs hcs
-    rw [hr] at h
-    have h : finish attach d false true rs cs = .ok d' := h
-    obtain ⟨ha, hc, hall⟩ := finish_colSeries h
-    rw [hreqr] at hc hall
-    exact ⟨by rw [ha, hreqc]; rfl, hc, hall⟩
-
 /-! ## objective aliases -/
 
 /-- the sense an alias NAMES, classified independently of the code's tables by the documented
@@ -285,6 +233,11 @@ def ex : DM Int :=
   { alts := ["A0", "A1"], crits := ["C0", "C1", "C2"], objs := [.max, .min, .max], wts := [1, 2, 7],
     dts := [.int, .float, .int], cells := [[1, 2, 3], [4, 5, 6]] }
 
+/-- alternatives whose labels are also criterion labels -/
+def exShared : DM Int :=
+  { alts := ["a", "C2"], crits := ["C0", "a", "C2"], objs := [.max, .min, .max], wts := [1, 2, 7],
+    dts := [.int, .float, .int], cells := [[2, 1, 3], [4, 5, 6]] }
+
 /-- before the fix `dm[['C2','C0']]` answered with `C2` carrying the weight of `C0` (and the objectives
 in original order): the answer is not a sub-view -/
 theorem getitem_v0_misaligns :
@@ -304,11 +257,24 @@ theorem getitem_fixed_witness :
       r.objs = [.max, .max] ∧ SubView r ex :=
   ⟨_, rfl, by decide, by decide, by decide, by decide⟩
 
-/-- the `(rows, single column)` corner of the present code: no row selected ⇒ the code answers with a
-matrix whose only alternative is the *criterion* — not a sub-view, not the requested order -/
+/-- before its repair the `(rows, single column)` form handled pandas' *column* Series like a row
+(`to_frame().T`): no row selected ⇒ the answer's only alternative was the *criterion*; all alternative
+labels also criterion labels ⇒ the transposed matrix. Neither is a sub-view in the requested order -/
 theorem colSeries_corner_violates :
-    ∃ r, loc ex (.many []) (some (.one "C1")) = .ok r ∧ r.alts = ["C1"] ∧ r.crits = [] ∧ ¬ SubView r ex :=
-  ⟨_, rfl, by decide, by decide, by decide⟩
+    (∃ r, loc_colseries_v0 ex (.many []) (some (.one "C1")) = .ok r ∧ r.alts = ["C1"] ∧ r.crits = [] ∧
+      ¬ SubView r ex) ∧
+    (∃ r, iloc_colseries_v0 exShared .all (some (.one 0)) = .ok r ∧ r.alts = ["C0"] ∧ r.crits = ["a", "C2"] ∧
+      ¬ SubView r exShared) :=
+  ⟨⟨_, rfl, by decide, by decide, by decide⟩, ⟨_, rfl, by decide, by decide, by decide⟩⟩
+
+/-- the repaired code on the same inputs: the one-criterion matrix, rows as requested -/
+theorem colSeries_fixed_witness :
+    (∃ r, loc ex (.many []) (some (.one "C1")) = .ok r ∧ r.alts = [] ∧ r.crits = ["C1"] ∧ r.objs = [.min] ∧
+      r.wts = [2] ∧ r.dts = [.float] ∧ SubView r ex) ∧
+    (∃ r, iloc exShared (.many [1, 0]) (some (.one 0)) = .ok r ∧ r.alts = ["C2", "a"] ∧ r.crits = ["C0"] ∧
+      r.cells = [[4], [2]] ∧ SubView r exShared) :=
+  ⟨⟨_, rfl, by decide, by decide, by decide, by decide, by decide, by decide⟩,
+   ⟨_, rfl, by decide, by decide, by decide, by decide⟩⟩
 
 /-! ## non-vacuity: the hypotheses are satisfiable on concrete, non-trivial instances -/
 
@@ -322,7 +288,11 @@ example : ∃ r, iloc ex (.one (-1)) (some (.slice none none (some (-1)))) = .ok
           dts := [.int, .float, .int], cells := [[6, 5, 4]] } := ⟨_, rfl, by decide⟩
 example : getitem ex (.col "C9") = .error .keyError := by decide
 example : loc ex (.one "A0") (some (.one "C1")) = .error .attributeError := by decide
-example : loc ex .all (some (.one "C1")) = .error .keyError := by decide
+example : loc_colseries_v0 ex .all (some (.one "C1")) = .error .keyError := by decide
+example : (Step.loc .all (some (.one "C1"))).Admissible ex := by decide
+example : ∃ r, loc ex .all (some (.one "C1")) = .ok r ∧
+    r = { alts := ["A0", "A1"], crits := ["C1"], objs := [.min], wts := [2], dts := [.float], cells := [[2], [5]] } :=
+  ⟨_, rfl, by decide⟩
 example : iloc ex (.mask [true]) none = .error .indexError := by decide
 example : getitem ex (.mask [true]) = .error .valueError := by decide
 example : copy ex = .ok ex := by decide
